@@ -89,9 +89,19 @@ func main() {
 
 	rewritten := map[string][]byte{} // abs path -> new content
 	if *syncPkgs != "" {
+		// file.go or file.go:FuncA+FuncB (only inside those functions/methods)
 		pts := map[string]bool{}
+		ptFuncs := map[string]map[string]bool{}
 		for _, f := range splitList(*pointsIn) {
-			pts[filepath.Join(*repo, f)] = true
+			name, funcs, scoped := strings.Cut(f, ":")
+			abs := filepath.Join(*repo, name)
+			pts[abs] = true
+			if scoped {
+				ptFuncs[abs] = map[string]bool{}
+				for _, fn := range strings.Split(funcs, "+") {
+					ptFuncs[abs][fn] = true
+				}
+			}
 		}
 		chans := map[string]bool{}
 		for _, d := range splitList(*chanPkgs) {
@@ -107,7 +117,7 @@ func main() {
 				}
 				src, err := readSrc(f)
 				must(err)
-				nsrc, notes, err := rewriteSync(f, src, chans[d], pts[f])
+				nsrc, notes, err := rewriteSync(f, src, chans[d], pts[f], ptFuncs[f])
 				if err != nil {
 					fmt.Fprintf(os.Stderr, "instr: %s: %v\n", f, err)
 					os.Exit(1)
@@ -161,11 +171,42 @@ func splitList(s string) []string {
 
 // rewriteSync redirects sync, sync/atomic, go statements and (optionally)
 // channel operations of one file. It returns nil when nothing changed.
-func rewriteSync(path string, src []byte, chans, points bool) ([]byte, []string, error) {
+func rewriteSync(path string, src []byte, chans, points bool, pointFuncs map[string]bool) ([]byte, []string, error) {
 	fset := token.NewFileSet()
 	f, err := parser.ParseFile(fset, path, src, parser.ParseComments)
 	if err != nil {
 		return nil, nil, err
+	}
+	// statement points can be limited to the bodies of named functions
+	type span struct{ lo, hi token.Pos }
+	var pointSpans []span
+	if points && pointFuncs != nil {
+		found := map[string]bool{}
+		for _, d := range f.Decls {
+			if fd, ok := d.(*ast.FuncDecl); ok && fd.Body != nil && pointFuncs[fd.Name.Name] {
+				pointSpans = append(pointSpans, span{fd.Body.Pos(), fd.Body.End()})
+				found[fd.Name.Name] = true
+			}
+		}
+		for fn := range pointFuncs {
+			if !found[fn] {
+				return nil, nil, fmt.Errorf("-points: function %s not found in %s", fn, path)
+			}
+		}
+	}
+	wantPoint := func(st ast.Stmt) bool {
+		if !points {
+			return false
+		}
+		if pointFuncs == nil {
+			return true
+		}
+		for _, sp := range pointSpans {
+			if st.Pos() >= sp.lo && st.Pos() < sp.hi {
+				return true
+			}
+		}
+		return false
 	}
 	changed := false
 	var notes []string
@@ -266,7 +307,7 @@ func rewriteSync(path string, src []byte, chans, points bool) ([]byte, []string,
 	rewriteStmtList = func(list []ast.Stmt) []ast.Stmt {
 		var outl []ast.Stmt
 		for _, st := range list {
-			if points {
+			if wantPoint(st) {
 				switch st.(type) {
 				case *ast.DeclStmt, *ast.LabeledStmt, *ast.CaseClause, *ast.CommClause:
 				default:
